@@ -1541,7 +1541,9 @@ func (d *c19Dyn) arithJob(fi *FuncInfo, onlySub, onlyIdx int) (nSub, nIdx int) {
 				}
 				return f
 			}
-			if il.lower(d.bounds) >= 0 {
+			if il.lower(d.bounds) >= 0 || c19IsUnsigned(info.TypeOf(ie.Index)) {
+				// an index expression of unsigned type has no negative values; that an unsigned difference in
+				// it does not wrap around is the obligation of the subtraction it contains (findSubs)
 				ig.loByType = true
 			} else {
 				ig.lo = fl.goalAt(wrap(fl.ge0(il)), h.c19Pos)
@@ -1554,6 +1556,7 @@ func (d *c19Dyn) arithJob(fi *FuncInfo, onlySub, onlyIdx int) (nSub, nIdx int) {
 		return
 	}
 	var goals []*c19Form
+	scOf := map[*c19Sub]*c19Form{} // what the enclosing && / || operands guarantee where the difference is evaluated
 	for _, sb := range subs {
 		gf := fl.ge0(sb.a.plus(sb.b, -1))
 		// a sink inside the expression itself is evaluated under the enclosing && / || operands
@@ -1561,6 +1564,7 @@ func (d *c19Dyn) arithJob(fi *FuncInfo, onlySub, onlyIdx int) (nSub, nIdx int) {
 			c19With(sb.def.sn.fr, func() {
 				if sc := fl.shortCircuit(d.p.parents, sb.def.node, sb.def.sn.n); sc != nil {
 					gf = c19Or(c19Not(sc), gf)
+					scOf[sb] = sc
 				}
 			})
 		}
@@ -1642,7 +1646,12 @@ func (d *c19Dyn) arithJob(fi *FuncInfo, onlySub, onlyIdx int) (nSub, nIdx int) {
 			}
 			// exception: the wantsCursor site
 			if wantsAtom != nil {
-				if under, _ := fl.holds(sts, wantsAtom); under && c19IsCursorMinusTop(info, sb, d.fCursor, d.fTop) {
+				underF := wantsAtom
+				if sc := scOf[sb]; sc != nil && sk.c19Pos == sb.def.c19Pos {
+					// `wantsCursor && ... cursor-top ...`: the difference is evaluated only when the left operands hold
+					underF = c19Or(c19Not(sc), wantsAtom)
+				}
+				if under, _ := fl.holds(sts, underF); under && c19IsCursorMinusTop(info, sb, d.fCursor, d.fTop) {
 					why := ""
 					local := map[ast.Stmt]c19Store{}
 					for _, ts := range fl.stores(d.fTop) {
@@ -1758,8 +1767,22 @@ func (d *c19Dyn) findSubs(fi *FuncInfo, fl *c19Flow, recv types.Object) []*c19Su
 	ctxOf := func(n ast.Node) string {
 		for cur := parents[n]; cur != nil; cur = parents[cur] {
 			if is, ok := cur.(*ast.IfStmt); ok {
-				if fv := c19SelField(info, is.Cond); fv != nil && c19IsBoolType(fv.Type()) {
-					return fv.Name()
+				// the boolean field that guards the statement: the condition itself or a conjunct of it (to the
+				// left of n when n is part of the condition)
+				conj := []ast.Expr{is.Cond}
+				for i := 0; i < len(conj); i++ {
+					if be, ok := unparen(conj[i]).(*ast.BinaryExpr); ok && be.Op == token.LAND {
+						conj = append(conj[:i], append([]ast.Expr{be.X, be.Y}, conj[i+1:]...)...)
+						i--
+					}
+				}
+				for _, e := range conj {
+					if e.Pos() <= n.Pos() && n.End() <= e.End() {
+						break
+					}
+					if fv := c19SelField(info, e); fv != nil && c19IsBoolType(fv.Type()) {
+						return fv.Name()
+					}
 				}
 			}
 			if _, ok := cur.(*ast.FuncDecl); ok {
